@@ -27,9 +27,12 @@ PluralE(l, ty) == [k |-> "plurals", ty |-> ty,
                    forms |-> [one |-> <<Text(TagText(l, <<"o","n","e","SP">>)), Var(Cnt)>>,
                               other |-> <<Text(TagText(l, <<"o","t","h","SP">>)), Var(Cnt), Text(<<"SP">>), Var(X)>>]]
 NullE == [k |-> "null"]
+\* a value of 2n + 1 pieces (the view back-end nests tuples beyond 26 pieces): x a x b x c ... x
+Alpha == <<"a","b","c","d","e","f","g","h","i","j","k","l","m","n","o","p","q","r","s","t","u","v","w","x","y","z","A","B","C","D">>
+LongV(l, n) == <<Text(LTag[l])>> \o Cat([i \in 1..n |-> <<Var(X), Text(<<Alpha[i]>>)>>]) \o <<Var(X), Text(<<"DOT">>)>>
 
 \* key paths are strings "a.b.c"; the key tree is fixed
-Paths == {"lit_s", "lit_u", "lit_i", "lit_f", "lit_b", "v", "c", "r", "p", "o", "g.s", "g.h.t", "g.h.r", "g.h.c"}
+Paths == {"lit_s", "lit_u", "lit_i", "lit_f", "lit_b", "v", "c", "r", "p", "o", "g.s", "g.h.t", "g.h.r", "g.h.c", "long", "g.h.l"}
 EntryOf(l, p) ==
     CASE p = "lit_s" -> Lit("String", TagText(l, <<"s">>))
       [] p = "lit_u" -> Lit("Unsigned", <<"5">>)
@@ -41,6 +44,8 @@ EntryOf(l, p) ==
       [] p = "r" -> RangeE(l)
       [] p = "p" -> IF l \in {"de", "fr"} THEN NullE ELSE PluralE(l, "cardinal")   \* fr and en disagree on the category of 0
       [] p = "o" -> PluralE(l, "ordinal")
+      [] p = "long" -> IF l = "de" THEN NullE ELSE ValE(LongV(l, 12))          \* 1 + 24 + 2 = 27 pieces
+      [] p = "g.h.l" -> ValE(LongV(l, 26))                                    \* 55 pieces
       [] p = "g.s" -> ValE(<<Text(TagText(l, <<"g","s","SP">>)), Var(X)>>)
       [] p = "g.h.t" -> IF l = "fr" THEN NullE ELSE Lit("String", TagText(l, <<"g","h","t">>))
       [] p = "g.h.r" -> RangeE(l)
@@ -62,7 +67,7 @@ DenoteEntry(l, p, env, c) ==
       [] OTHER -> Denote(e.forms[FormFor(DOMAIN e.forms, OracleData.cats[l][e.ty][c.tok])], envc)   \* plural rules of the rendered locale
 
 NeedsCount(p) == EntryOf("en", p).k \in {"ranges", "plurals"}
-VarsOfPath(p) == CASE p \in {"v", "g.s"} -> {"x"} [] p \in {"r", "p", "o", "g.h.r"} -> {"x"} [] p = "c" -> {"x"} [] OTHER -> {}
+VarsOfPath(p) == CASE p \in {"v", "g.s", "long", "g.h.l"} -> {"x"} [] p \in {"r", "p", "o", "g.h.r"} -> {"x"} [] p = "c" -> {"x"} [] OTHER -> {}
 CompsOfPath(p) == CASE p = "c" -> {"b", "i"} [] p = "g.h.c" -> {"b"} [] OTHER -> {}
 
 \* ---- the scoping machine ------------------------------------------------------------------------
@@ -71,8 +76,8 @@ vars == <<loc, prefix>>
 Join(a, b) == IF a = "" THEN b ELSE a \o "." \o b
 \* what lies below a scope prefix: <<full path, remaining key path>>
 Below == [root |-> { <<p, p>> : p \in Paths },
-          g    |-> { <<"g.s", "s">>, <<"g.h.t", "h.t">>, <<"g.h.r", "h.r">>, <<"g.h.c", "h.c">> },
-          gh   |-> { <<"g.h.t", "t">>, <<"g.h.r", "r">>, <<"g.h.c", "c">> }]
+          g    |-> { <<"g.s", "s">>, <<"g.h.t", "h.t">>, <<"g.h.r", "h.r">>, <<"g.h.c", "h.c">>, <<"g.h.l", "h.l">> },
+          gh   |-> { <<"g.h.t", "t">>, <<"g.h.r", "r">>, <<"g.h.c", "c">>, <<"g.h.l", "l">> }]
 PrefixName == [root |-> "", g |-> "g", gh |-> "g.h"]
 Init == loc \in Range(Locales3) /\ prefix = "root"
 Scope == \/ prefix = "root" /\ prefix' \in {"g", "gh"} /\ UNCHANGED loc      \* scope to g, or directly to g.h
@@ -97,11 +102,11 @@ PluralLeaves(l, p, name) ==
             <<name \o (IF e.ty = "ordinal" THEN "_ordinal_other" ELSE "_other"), StrNode(Unparse(e.forms["other"], NoWs))>> >>
 FileOf(l) ==
     MapNode(<< <<"lit_s", Leaf(l, "lit_s")>>, <<"lit_u", Leaf(l, "lit_u")>>, <<"lit_i", Leaf(l, "lit_i")>>, <<"lit_f", Leaf(l, "lit_f")>>,
-               <<"lit_b", Leaf(l, "lit_b")>>, <<"v", Leaf(l, "v")>>, <<"c", Leaf(l, "c")>>, <<"r", Leaf(l, "r")>> >>
+               <<"lit_b", Leaf(l, "lit_b")>>, <<"v", Leaf(l, "v")>>, <<"c", Leaf(l, "c")>>, <<"r", Leaf(l, "r")>>, <<"long", Leaf(l, "long")>> >>
             \o PluralLeaves(l, "p", "p") \o PluralLeaves(l, "o", "o")
             \o << <<"g", MapNode(<< <<"s", Leaf(l, "g.s")>>,
-                                     <<"h", IF l = "fr" THEN MapNode(<< <<"t", Leaf(l, "g.h.t")>>, <<"r", Leaf(l, "g.h.r")>>, <<"c", Leaf(l, "g.h.c")>> >>)
-                                            ELSE MapNode(<< <<"t", Leaf(l, "g.h.t")>>, <<"r", Leaf(l, "g.h.r")>>, <<"c", Leaf(l, "g.h.c")>> >>)>> >>)>> >>)
+                                     <<"h", IF l = "fr" THEN MapNode(<< <<"t", Leaf(l, "g.h.t")>>, <<"r", Leaf(l, "g.h.r")>>, <<"c", Leaf(l, "g.h.c")>>, <<"l", Leaf(l, "g.h.l")>> >>)
+                                            ELSE MapNode(<< <<"t", Leaf(l, "g.h.t")>>, <<"r", Leaf(l, "g.h.r")>>, <<"c", Leaf(l, "g.h.c")>>, <<"l", Leaf(l, "g.h.l")>> >>)>> >>)>> >>)
 
 Project == [cfg |-> [default |-> "en", locales |-> Locales3],
             files |-> [i \in DOMAIN Locales3 |-> <<Locales3[i], FileOf(Locales3[i])>>]]
